@@ -124,7 +124,7 @@ def env_names(soup):
     return out
 
 
-def only_closers_inserted(src, out, names=(), allow_name_padding=False):
+def only_closers_inserted(src, out, names=(), allow_name_padding=False, allow_bracket_names=False):
     """None when `out` is `src` with only argument whitespace removed and
     closing delimiters `}` `]` `\\end{name}` inserted."""
     # dynamic programme over (i, j): src[:i] matched with out[:j]
@@ -142,6 +142,13 @@ def only_closers_inserted(src, out, names=(), allow_name_padding=False):
         nxt = []
         if i < n and j < m and src[i] == out[j]:
             nxt.append((i + 1, j + 1))
+        if allow_bracket_names and i < n and j < m:
+            # used only by the classifier of KF-bracket-env-name: the bracket
+            # group standing for the name of \begin / \end is printed with braces
+            if src[i] == '[' and out[j] == '{' and re.search(r'\\(?:begin|end)[ \t]*\n?[ \t]*$', src[:i]):
+                nxt.append((i + 1, j + 1))
+            if src[i] == ']' and out[j] == '}':
+                nxt.append((i + 1, j + 1))
         if j < m:
             mt = CLOSER_RE.match(out, j)
             if mt:
